@@ -439,3 +439,89 @@ def min_fork(w, st, t, args):
 
 
 C["std::cmp::Ord::min"]["fork"] = min_fork
+
+
+# Result::map_err / inspect / inspect_err keep Ok-ness and the Ok value (std docs): make them transparent for `?`
+def map_err_fork(w, st, t, args):
+    r = args[0]
+    if not isinstance(r, tuple) or not r:
+        return None
+    if r[0] == "from_residual":
+        return [{"res": ("from_residual", ("mapped", r[1]))}]
+    if r[0] == "agg" and r[1] == "adt" and r[3] == "Ok":
+        return [{"res": r}]
+    if r[0] == "agg" and r[1] == "adt" and r[3] == "Err":
+        return [{"res": ("from_residual", ("mapped", r))}]
+    return [{"res": ("maperr", r)}]
+
+
+reg(["std::result::Result::<T, E>::map_err", "std::result::Result::<T, E>::inspect", "std::result::Result::<T, E>::inspect_err"], fork=map_err_fork)
+
+
+# ---------------------------------------------------------------------------
+# assume-guarantee for calls of a stream's own primitives on `self` (the callee's effect is verified on its own
+# body: C01.W5 / C02.R3): the callee may change the buffer counter and the backend position arbitrarily as long as
+# the struct invariant holds and the ghost position moves by exactly n.
+SELF_T = ("arg", 1, "self")
+G_WW = ("ghost", "ww")
+G_WP = ("ghost", "wp")
+_fresh = [0]
+
+
+def _field(name):
+    return ("field", ("deref", SELF_T), name)
+
+
+def _is_self(t):
+    while isinstance(t, tuple) and t and t[0] in ("ref", "deref"):
+        t = t[1]
+    return t == SELF_T
+
+
+def own_write_bits(w, st, args):
+    if not _is_self(args[0]) or not (w.body.b.get("impl_self") or "").startswith("impls::buf_bit_writer::BufBitWriter<"):
+        return
+    W = w.cfg.w
+    _fresh[0] += 1
+    s_old = st["mem"].get(_field("space_left_in_buffer"), _field("space_left_in_buffer"))
+    ww_old = st["mem"].get(G_WW, G_WW)
+    hs = ("havoc", "own%d" % _fresh[0], "usize", "own", "space_left'")
+    st["mem"][_field("space_left_in_buffer")] = hs
+    # W*ww' - s' = W*ww - s + n   =>   ww' = ww + (n + s' - s)/W
+    from fractions import Fraction
+    st["mem"][G_WW] = ("lincomb", ((Fraction(1), ww_old), (Fraction(1, W), args[2]), (Fraction(1, W), hs), (Fraction(-1, W), s_old)), Fraction(0))
+    st["mem"][_field("buffer")] = ("havoc", "ownb%d" % _fresh[0], None, "own", "buffer'")
+    st["log"].append(("lin", [le(const(1), w.num.aff(hs)), le(w.num.aff(hs), const(W))]))
+    return True
+
+
+def own_read_bits(w, st, args):
+    if not _is_self(args[0]) or not (w.body.b.get("impl_self") or "").startswith("impls::buf_bit_reader::BufBitReader<"):
+        return
+    W = w.cfg.w
+    _fresh[0] += 1
+    b_old = st["mem"].get(_field("bits_in_buffer"), _field("bits_in_buffer"))
+    wp_old = st["mem"].get(G_WP, G_WP)
+    hb = ("havoc", "own%d" % _fresh[0], "usize", "own", "bits_in_buffer'")
+    st["mem"][_field("bits_in_buffer")] = hb
+    # W*wp' - b' = W*wp - b + n   =>   wp' = wp + (n + b' - b)/W
+    from fractions import Fraction
+    st["mem"][G_WP] = ("lincomb", ((Fraction(1), wp_old), (Fraction(1, W), args[1]), (Fraction(1, W), hb), (Fraction(-1, W), b_old)), Fraction(0))
+    st["mem"][_field("buffer")] = ("havoc", "ownb%d" % _fresh[0], None, "own", "buffer'")
+    # when the request fits the buffer no word is fetched: b' = b - n exactly (fast path of read_bits, verified in R3);
+    # in general only the invariant is known
+    n = w.num.aff(args[1])
+    bo = w.num.aff(b_old)
+    lin = [le(const(0), w.num.aff(hb)), le(w.num.aff(hb), const(2 * W - 1))]
+    st["log"].append(("lin", lin))
+    if n is not None and bo is not None:
+        import lp
+        base = w.full_store(st)
+        if lp.entails(w.num.close(base, [le(n, bo)]), le(n, bo)):
+            hbv = w.num.aff(hb)
+            st["log"].append(("lin", [le(hbv, bo - n), le(bo - n, hbv)]))
+    return True
+
+
+C["traits::bits::BitWrite::write_bits"]["self_effect"] = own_write_bits
+C["traits::bits::BitRead::read_bits"]["self_effect"] = own_read_bits
